@@ -128,6 +128,41 @@ pub fn op_sign_model(n: usize, keyseed: &[u8], rows: [&str; 4], msg: &[u8], stre
     }
 }
 
+/// `sign_basis N r0 r1 r2 r3 msg streamseed len`: `sign` with the key built from the given basis rows [g, -f, G, -F]
+/// (not necessarily a generated key: skewed bases make the norm test and the compression fail often, which exercises the
+/// two retry loops) on the byte stream Prng(streamseed).bytes(len) -> `<sig hex> <attempts> <compress retries>`
+pub fn op_sign_basis(n: usize, rows: [&str; 4], msg: &[u8], streamseed: u64, len: usize) -> String {
+    let b0: [Vec<i16>; 4] = [0, 1, 2, 3].map(|i| parse_ints::<i16>(rows[i]));
+    let mut src = StreamRng::new(Prng::new(streamseed).bytes(len));
+    src.panic_on_exhaust = true;
+    vh::rng_inject(Box::new(src));
+    vh::trace_start(false);
+    let r = std::panic::catch_unwind(|| {
+        if n == 512 {
+            falcon512::sign(msg, &falcon512::SecretKey::verif_from_b0(b0.clone())).to_bytes()
+        } else {
+            falcon1024::sign(msg, &falcon1024::SecretKey::verif_from_b0(b0.clone())).to_bytes()
+        }
+    });
+    let events = vh::trace_take();
+    vh::rng_clear();
+    match r {
+        Err(e) => {
+            let m = e.downcast_ref::<String>().cloned().or_else(|| e.downcast_ref::<&str>().map(|s| s.to_string())).unwrap_or_default();
+            if m.contains("stream-exhausted") {
+                "stream-exhausted".to_string()
+            } else {
+                format!("PANIC {m}")
+            }
+        }
+        Ok(sig) => {
+            let attempts = events.iter().filter(|e| e.tag == "sign.z").count();
+            let retries = events.iter().filter(|e| e.tag == "sign.s2" && e.ints[0] == 0).count();
+            format!("{} {} {}", hex(&sig), attempts, retries)
+        }
+    }
+}
+
 /// `sign_salt N keyseed msg rngseed` -> the salt of the signature and the first 40 bytes the generator produced
 pub fn op_sign_salt(n: usize, keyseed: &[u8], msg: &[u8], rngseed: u64) -> String {
     let r = sign_traced(n, keyseed, msg, Some(rngseed), false);
